@@ -153,7 +153,8 @@ def run_family(chk, tier, variant='san'):
                 kind = 'accepted-illegal' if acc else 'refused-legal'
                 why = classify(g, sub)
                 chk.outcome(kind)
-                chk.violation('%s/%s/%s/%s' % (PID, kind, shape, why), 'set %s under [%s] is %s but the reader %s it (%s)' % (sorted(sub), g.express().replace('\n', ' '), 'legal' if want else 'illegal',
+                # which supertype is missing decides the defect, not the name of the graph family it was seen in
+                chk.violation(('%s/%s/%s' % (PID, kind, why)) if why.startswith('missing-supertype') else '%s/%s/%s/%s' % (PID, kind, shape, why), 'set %s under [%s] is %s but the reader %s it (%s)' % (sorted(sub), g.express().replace('\n', ' '), 'legal' if want else 'illegal',
                                                                                                                  'accepts' if acc else 'refuses: ' + r[1][:60], why), case)
         # ---- file level: the same subsets (sorted parts) as '#10=(A()B()...);' between two plain instances
         fcases = []
@@ -199,10 +200,25 @@ def run_family(chk, tier, variant='san'):
 def classify(g, sub):
     """which clause of the property decides the set"""
     S = set(sub)
+
+    def roots(n):
+        sup = g.ents[n]['supers']
+        return {n} if not sup else set().union(*[roots(x) for x in sup])
+    miss = set()
     for n in S:
-        for s in g.ents[n]['supers']:
+        sup = g.ents[n]['supers']
+        for s in sup:
             if s not in S:
-                return 'missing-supertype'
+                present = [x for x in sup if x in S]
+                if not present:
+                    miss.add('none-present')
+                elif any(roots(s) & roots(x) for x in present):
+                    miss.add('sibling-supertype-present')      # a diamond: the supertype next to it, under the same root, is there
+                else:
+                    miss.add('other-hierarchy-present')
+    for m in ('none-present', 'other-hierarchy-present', 'sibling-supertype-present'):
+        if m in miss:
+            return 'missing-supertype:' + m
     for n in S:
         present = frozenset(x for x in g.subs[n] if x in S)
         if present not in cxref.allowed_present(g, n):
